@@ -20,6 +20,18 @@
 #include <asmjit-testing/commons/random.h>
 #endif // ASMJIT_TEST
 
+#ifdef ASMJIT_VERIF
+// Verification hook H2: when set by a harness it is called at the end of every critical section of the allocator, while
+// the allocator's lock is still held (reset: exclusive access by contract), with the operation and its result:
+//   kind 1 alloc      a = impl, b = const Span* (the span handed out),   c = size (aligned request)
+//   kind 2 release    a = impl, b = rx (the pointer released),           c = bytes given back
+//   kind 3 shrink     a = impl, b = const Span* (after the shrink),      c = new_size
+//   kind 4 query      a = impl, b = const Span* (the answer),            c = the address asked about
+//   kind 5 statistics a = impl, b = const Statistics* (the answer),      c = 0
+//   kind 6 reset      a = impl, b = nullptr,                             c = reset policy
+extern "C" { void (*asmjit_verif_jit_event)(unsigned kind, const void* a, const void* b, size_t c) = nullptr; }
+#endif
+
 ASMJIT_BEGIN_NAMESPACE
 
 // JitAllocator - Constants
@@ -861,6 +873,12 @@ void JitAllocator::reset(ResetPolicy reset_policy) noexcept {
       }
     }
   }
+
+#ifdef ASMJIT_VERIF
+  if (asmjit_verif_jit_event) {
+    asmjit_verif_jit_event(6, impl, nullptr, size_t(reset_policy));
+  }
+#endif
 }
 
 // JitAllocator - Statistics
@@ -884,6 +902,12 @@ JitAllocator::Statistics JitAllocator::statistics() const noexcept {
     }
 
     statistics._allocation_count = impl->allocation_count;
+
+#ifdef ASMJIT_VERIF
+    if (asmjit_verif_jit_event) {
+      asmjit_verif_jit_event(5, impl, &statistics, 0);
+    }
+#endif
   }
 
   return statistics;
@@ -1010,6 +1034,12 @@ Error JitAllocator::alloc(Out<Span> out, size_t size) noexcept {
   out->_size = size;
   out->_block = static_cast<void*>(block);
 
+#ifdef ASMJIT_VERIF
+  if (asmjit_verif_jit_event) {
+    asmjit_verif_jit_event(1, impl, &*out, size);
+  }
+#endif
+
   return Error::kOk;
 }
 
@@ -1059,6 +1089,12 @@ Error JitAllocator::release(void* rx) noexcept {
       pool->empty_block_count++;
     }
   }
+
+#ifdef ASMJIT_VERIF
+  if (asmjit_verif_jit_event) {
+    asmjit_verif_jit_event(2, impl, rx, size_t(area_size) * pool->granularity);
+  }
+#endif
 
   return Error::kOk;
 }
@@ -1112,6 +1148,12 @@ static Error JitAllocatorImpl_shrink(JitAllocatorPrivateImpl* impl, JitAllocator
       JitAllocator_fill_pattern(span_ptr, impl->fill_pattern, span_size);
     }
   }
+
+#ifdef ASMJIT_VERIF
+  if (asmjit_verif_jit_event) {
+    asmjit_verif_jit_event(3, impl, &span, new_size);
+  }
+#endif
 
   return Error::kOk;
 }
@@ -1175,6 +1217,12 @@ Error JitAllocator::query(Out<Span> out, void* rx) const noexcept {
   out->_rw = static_cast<uint8_t*>(block->_mapping.rw) + byte_offset;
   out->_size = byte_size;
   out->_block = static_cast<void*>(block);
+
+#ifdef ASMJIT_VERIF
+  if (asmjit_verif_jit_event) {
+    asmjit_verif_jit_event(4, impl, &*out, size_t(uintptr_t(rx)));
+  }
+#endif
 
   return Error::kOk;
 }
